@@ -17,7 +17,8 @@ R.contract("BytesQueue.put", trusted=True, params={"self": "BytesQueue", "item":
 R.contract("MsgQueue.get", trusted=True, params={"self": "MsgQueue", "block": "bool", "timeout": "int"},
            returns="Message", raises=[Raise("queue.Empty", "True", "may")],
            ghost_modifies=["self.g_taken"],
-           ghost_ensures=["items(self.g_taken) == old(items(self.g_taken)) + [result]"])
+           ghost_ensures=["items(self.g_taken) == old(items(self.g_taken)) + [result]"],
+           ensures_exc={"queue.Empty": ["self.g_taken == old(self.g_taken)"]})
 R.contract("MsgQueue.put", trusted=True, params={"self": "MsgQueue", "item": "Message"},
            ghost_modifies=["self.g_put"],
            ghost_ensures=["items(self.g_put) == old(items(self.g_put)) + [item]"])
